@@ -36,3 +36,37 @@ func VerifT01_Cond() {
 	zz.CoverIf("T01.waited", waited.Load() == 1)
 	zz.Assert("T01.flag", flag.Load() == 1)
 }
+
+// engine self-test: correct cond-var protocol has no deadlock
+//
+//verif:conc
+//verif:unroll 3
+//verif:deadlock 1
+func VerifT01_NoDeadlock() { VerifT01_Cond() }
+
+// engine self-test: lost wake-up - the predicate is checked OUTSIDE the lock, the broadcast can slip in between the
+// check and the Wait: the deadlock query must find it (expected: VIOLATION)
+//
+//verif:conc
+//verif:unroll 3
+//verif:deadlock 1
+func VerifT01_LostWakeup() {
+	c := sync.NewCond(&sync.Mutex{})
+	var flag atomic.Int64
+	var wg sync.WaitGroup
+	wg.Add(1)
+	go func() {
+		if flag.Load() == 0 {
+			c.L.Lock()
+			c.Wait()
+			c.L.Unlock()
+		}
+		wg.Done()
+	}()
+	c.L.Lock()
+	flag.Store(1)
+	c.Broadcast()
+	c.L.Unlock()
+	wg.Wait()
+	zz.Cover("T01.lw.done")
+}
